@@ -34,7 +34,6 @@ import (
 	"github.com/btcsuite/btcd/wire"
 	"github.com/sygmaprotocol/sygma-core/relayer/proposal"
 
-	"verifharness/c08fakes"
 	"verifharness/tssfakes"
 )
 
@@ -140,7 +139,7 @@ func runBtcExec(c Case) Obs {
 			return o
 		}
 		closers = append(closers, client.Shutdown, srv.Close)
-		ex := btcexec.NewExecutor(&memProps{m: map[string]store.PropStatus{}}, host, cm, co, c08fakes.NewFrostStore(w.frostPath(p)),
+		ex := btcexec.NewExecutor(&memProps{m: map[string]store.PropStatus{}}, host, cm, co, w.fstore(p),
 			&connection.Connection{Client: client}, fixedMempool{utxos}, map[[32]byte]btcconfig.Resource{rid: resource}, params, &sync.RWMutex{}, fixedUploader{})
 		go func(i int) {
 			defer func() { _ = recover(); done <- i }()
